@@ -212,12 +212,55 @@ typedef struct {
 	uint8_t *submitted, *sub_unknown, *avail, *cbcount, *stage, *received;
 	void **prev, **cbbuf, **tab;
 	void **allcb; size_t nallcb, capallcb;
+	void **dups; size_t ndups, capdups;
+	int in_nested;
 	int complete_prev, in_finish, cur_call, rs;
 	gf2_peel_t *peel;
 	const char *cname;
 } hctx_t;
 
 static void key2(char *out, size_t n, const char *a, const char *b) { snprintf(out, n, "%s:%s", a, b); }
+
+/* ---- a second, complete decoding session run from inside a callback of the session under test (re-entrant use) ---- */
+static block_t g_nested[4]; static int g_nested_ok[4];
+static int nested_index(const cfg_t *c) { return c->codec == 1 ? 0 : c->codec == 2 ? (c->m == 4 ? 2 : 1) : 3; }
+static void nested_prepare(const cfg_t *outer)
+{
+	int i = nested_index(outer);
+	if (g_nested_ok[i]) return;
+	static const cfg_t nc[4] = { {1,0,12,8,16,0,0}, {2,8,12,8,16,0,0}, {2,4,6,7,16,0,0}, {3,0,12,8,16,3,7} };
+	cfg_t c = nc[i]; if (outer->codec == 5) return;
+	rng_t r = rng_make(77, 78, (uint64_t)i); const char *sv = g_prop; g_prop = "";
+	if (block_build(&g_nested[i], &c, PAY_RANDOM, &r, 0, -1) == 0) g_nested_ok[i] = 1;
+	g_prop = sv;
+}
+static void nested_session(const cfg_t *outer)
+{
+	int i = nested_index(outer); if (outer->codec == 5 || !g_nested_ok[i]) return;
+	const block_t *nb = &g_nested[i]; const cfg_t *c = &nb->c; uint32_t k = c->k, n = nb->n; char pb[32], key[96];
+	of_session_t *s = NULL; of_status_t st; void *at[32], *tab[16];
+	LIB_ENTER(); st = of_create_codec_instance(&s, (of_codec_id_t)c->codec, OF_DECODER, 0); LIB_LEAVE();
+	if (st != OF_STATUS_OK || !s) return;
+	cfg_params(c, pb);
+	LIB_ENTER(); st = of_set_fec_parameters(s, (of_parameters_t *)pb); LIB_LEAVE();
+	if (st == OF_STATUS_OK) {
+		uint32_t lost = c->codec == 3 ? 2 : k / 2;            /* sources 0..lost-1 are erased */
+		for (uint32_t e = 0; e < n; e++) at[e] = e < lost ? NULL : (void *)nb->sym[e];
+		LIB_ENTER(); st = of_set_available_symbols(s, at); if (st == OF_STATUS_OK) st = of_finish_decoding(s); LIB_LEAVE();
+		LIB_ENTER(); int complete = of_is_decoding_complete(s) ? 1 : 0; LIB_LEAVE();
+		memset(tab, 0, sizeof tab);
+		LIB_ENTER(); of_status_t st2 = of_get_source_symbols_tab(s, tab); LIB_LEAVE();
+		if (c->codec != 3 && !complete) { snprintf(key, sizeof key, "nested-session:%s:incomplete", codec_name(c)); rep_viol(key, "a session run inside another session's callback did not decode from %u >= k symbols (finish status %d)", n - lost, st); }
+		if (complete && st2 == OF_STATUS_OK) for (uint32_t e = 0; e < k; e++) {
+			if (!tab[e] || memcmp(tab[e], nb->sym[e], c->L)) { snprintf(key, sizeof key, "nested-session:%s:wrong-symbol", codec_name(c)); rep_viol(key, "a session run inside another session's callback returned a wrong source %u", e); break; }
+		}
+		if (st2 == OF_STATUS_OK) for (uint32_t e = 0; e < k; e++) if (tab[e] && tab[e] != (void *)nb->sym[e] && led_is_lib(tab[e])) led_handover(tab[e]);
+		LIB_ENTER(); of_release_codec_instance(s); LIB_LEAVE(); s = NULL;
+		if (st2 == OF_STATUS_OK) for (uint32_t e = 0; e < k; e++) if (tab[e] && tab[e] != (void *)nb->sym[e] && !ar_owns(tab[e])) free(tab[e]);
+		rep_count("nested_sessions_inside_callbacks", 1);
+	}
+	if (s) { LIB_ENTER(); of_release_codec_instance(s); LIB_LEAVE(); }
+}
 
 static void *cb_source(void *context, UINT32 size, UINT32 esi)
 {
@@ -231,6 +274,7 @@ static void *cb_source(void *context, UINT32 size, UINT32 esi)
 	}
 	if (h->submitted[esi] && ON("C11")) { key2(key, sizeof key, "cb-for-received", h->cname); rep_viol(key, "callback for esi=%u which the application had already submitted", esi); }
 	if (h->cbcount[esi]++ && ON("C11")) { key2(key, sizeof key, "cb-duplicate", h->cname); rep_viol(key, "second callback for esi=%u", esi); }
+	if (h->hi->reenter && !h->in_nested) { h->in_nested = 1; nested_session(&h->b->c); h->in_nested = 0; }
 	int give;
 	switch (h->hi->cbmode) {
 	case 2: give = 0; break;
@@ -352,6 +396,7 @@ void run_history(const block_t *b, const hist_t *hi, unsigned mon, hres_t *res)
 	res->oracle_solvable = -1; res->finish_status = -1;
 	uint32_t k = H.k, n = H.n;
 	of_status_t st; char pbuf[32];
+	if (hi->reenter) nested_prepare(c);
 	led_reset(); g_led_bad_free = 0;
 	of_codec_type_t type = hi->roles ? OF_ENCODER_AND_DECODER : OF_DECODER;
 	LIB_ENTER(); st = of_create_codec_instance(&H.ses, (of_codec_id_t)c->codec, type, 0); LIB_LEAVE();
@@ -396,9 +441,18 @@ void run_history(const block_t *b, const hist_t *hi, unsigned mon, hres_t *res)
 		for (uint32_t s = 0; s < hi->nsub; s++) {
 			uint32_t esi = hi->sub[s];
 			int was_complete = H.complete_prev;
-			submit_mark(&H, esi);
 			H.cur_call++;
-			LIB_ENTER(); st = of_decode_with_new_symbol(H.ses, b->sym[esi], esi); LIB_LEAVE();
+			void *buf = b->sym[esi];
+			if (hi->dupcopy && H.submitted[esi] && ((s * 2654435761u) >> 7 & 1)) {
+				/* the same symbol again, from another packet buffer */
+				buf = ar_alloc(H.L, (unsigned)(s & 7), AR_SYM, -3); memcpy(buf, b->sym[esi], H.L); ar_ro(buf);
+				if (H.ndups == H.capdups) { H.capdups = H.capdups ? H.capdups * 2 : 16; H.dups = realloc(H.dups, H.capdups * sizeof(void *)); }
+				H.dups[H.ndups++] = buf; rep_count("duplicates_submitted_from_another_buffer", 1);
+			}
+			int dup_before = H.submitted[esi];
+			(void)dup_before;
+			submit_mark(&H, esi);
+			LIB_ENTER(); st = of_decode_with_new_symbol(H.ses, buf, esi); LIB_LEAVE();
 			rep_count("api_decode_with_new_symbol", 1); res->lib_calls++;
 			if (st != OF_STATUS_OK && (ON("C10") || ON("C16"))) { snprintf(key, sizeof key, "submit-status:of_decode_with_new_symbol:%s", H.cname); rep_viol(key, "status %d for esi=%u", st, esi); }
 			if (hi->snap_every == 1 || (s + 1) % (uint32_t)hi->snap_every == 0 || s + 1 == hi->nsub) snapshot(&H, 0);
@@ -461,6 +515,27 @@ void run_history(const block_t *b, const hist_t *hi, unsigned mon, hres_t *res)
 		}
 	}
 	snapshot(&H, 1);
+	if (hi->roles == 3 && H.complete_prev && H.rs) {
+		/* relay: the instance that decoded the block now regenerates repair symbols from what it decoded. Reed-Solomon only: the
+		 * LDPC-Staircase decoder consumes the instance's parity-check matrix, encoding after decoding is outside its protocol
+		 * (DESIGN.md 10.2, observation O1) */
+		void **et = ar_alloc((size_t)n * sizeof(void *), 0, AR_PTRTAB, 4);
+		for (uint32_t i = 0; i < n; i++) et[i] = i < k ? H.prev[i] : NULL;
+		/* in ESI order (the staircase needs the previous repair symbol in the table); long blocks: the first 48, and for the
+		 * Reed-Solomon codecs also the very last one */
+		uint32_t nb = c->r <= 48 ? c->r : 48; uint8_t **outs = calloc(nb + 2, sizeof *outs);
+		for (uint32_t q = 0; q <= nb; q++) {
+			uint32_t esi = k + q;
+			if (q == nb) { if (!H.rs || c->r <= 48) break; esi = n - 1; }
+			outs[q] = ar_alloc(H.L, q & 7, AR_SYM, -4);
+			memset(outs[q], 0x5C, H.L); et[esi] = outs[q];
+			LIB_ENTER(); st = of_build_repair_symbol(H.ses, et, esi); LIB_LEAVE(); res->lib_calls++;
+			if (st != OF_STATUS_OK || memcmp(outs[q], b->sym[esi], H.L)) { snprintf(key, sizeof key, "relay-encode-after-decode:%s", H.cname); rep_viol(key, "encoder+decoder instance, decoding complete: of_build_repair_symbol(esi=%u) status %d, %s", esi, st, st == OF_STATUS_OK ? "wrong repair symbol" : "refused"); break; }
+			rep_count("repair_symbols_rebuilt_by_a_relay_instance", 1);
+		}
+		for (uint32_t q = 0; q <= nb; q++) if (outs[q]) ar_free(outs[q]);
+		free(outs); ar_free(et);
+	}
 	if ((mon & MON_C11) && ON("C11") && hi->cbmode) {
 		for (uint32_t i = 0; i < k; i++) {
 			if (H.avail[i] && !H.submitted[i] && H.cbcount[i] != 1) { snprintf(key, sizeof key, "cb-missing:%s:%s", H.cname, H.stage[i] == 2 ? "finish" : "submission"); if (!H.cbcount[i]) rep_viol(key, "source %u available, never submitted, %u callbacks", i, H.cbcount[i]); }
@@ -490,6 +565,8 @@ release:
 	}
 	for (size_t i = 0; i < H.nallcb; i++) { if ((mon & MON_C07) && ON("C07") && ar_check(H.allcb[i])) rep_viol("modified:callback-buffer-slack", "bytes before a callback buffer were written"); ar_free(H.allcb[i]); }
 	free(H.allcb);
+	for (size_t i = 0; i < H.ndups; i++) { if ((mon & MON_C07) && ON("C07") && ar_check(H.dups[i])) rep_viol("modified:received-source:duplicate-buffer", "a duplicate's buffer was modified"); ar_free(H.dups[i]); }
+	free(H.dups);
 	if (H.tab) ar_free(H.tab);
 	gf2_peel_free(H.peel);
 	free(H.submitted); free(H.received); free(H.sub_unknown); free(H.avail); free(H.cbcount); free(H.stage); free(H.prev); free(H.cbbuf);
